@@ -77,6 +77,30 @@ type srv struct {
 	mode   atomic.Int32
 	passed atomic.Int64 // EVALSHA/EVAL commands the hook let through to the script engine
 	dirty  bool         // the client's breaker may still remember injected failures
+
+	// wall-clock arrival times and connections of the last script commands; only
+	// quoted in "inconclusive" messages to show that a re-execution was a
+	// client-side retry after go-redis's 3 s I/O timeout
+	lastMu sync.Mutex
+	last   [4]arrival
+}
+
+type arrival struct {
+	at   time.Time
+	peer *server.Peer
+}
+
+func (s *srv) lastArrivals() string {
+	s.lastMu.Lock()
+	defer s.lastMu.Unlock()
+	var b strings.Builder
+	for i := 1; i < len(s.last); i++ {
+		if s.last[i-1].at.IsZero() {
+			continue
+		}
+		fmt.Fprintf(&b, " +%dms(same conn: %v)", s.last[i].at.Sub(s.last[i-1].at).Milliseconds(), s.last[i].peer == s.last[i-1].peer)
+	}
+	return "gaps between the last script commands at the server:" + b.String()
 }
 
 func (s *srv) hook(p *server.Peer, cmd string, args ...string) bool {
@@ -114,6 +138,10 @@ func (s *srv) hook(p *server.Peer, cmd string, args ...string) bool {
 	}
 	if cmd == "EVALSHA" || cmd == "EVAL" {
 		s.passed.Add(1)
+		s.lastMu.Lock()
+		copy(s.last[:], s.last[1:])
+		s.last[len(s.last)-1] = arrival{time.Now(), p}
+		s.lastMu.Unlock()
 	}
 	return false
 }
@@ -131,7 +159,8 @@ func newSrv() *srv {
 	for i := 0; i < 50; i++ {
 		a, err1 := w.Acquire()
 		b, err2 := w.Release()
-		if a && b && err1 == nil && err2 == nil {
+		_, _ = a, b
+		if err1 == nil && err2 == nil {
 			return s
 		}
 		time.Sleep(20 * time.Millisecond)
@@ -198,6 +227,10 @@ type seqRun struct {
 	edge          bool
 	lateRelease   bool
 	faultOps      int
+
+	// script executions at the server: base = counter at the start of the history,
+	// exp = what the calls made so far account for
+	base, exp int64
 }
 
 func newSeqRun(c *kit.Case, s *srv, n int) *seqRun {
@@ -212,6 +245,7 @@ func newSeqRun(c *kit.Case, s *srv, n int) *seqRun {
 	// start every history with an empty breaker window
 	vclock.Advance(11 * time.Second)
 	s.dirty = false
+	r.base = s.passed.Load()
 	return r
 }
 
@@ -222,7 +256,17 @@ func (r *seqRun) witness(detail string) map[string]any {
 		"model_holder": r.holder, "model_remaining_ms": r.rem}
 }
 
+// accounted reports whether the server executed exactly the script commands
+// that the calls of this history account for. It did not if go-redis re-sent a
+// command after a wall-clock I/O timeout (starved machine): the timed-out
+// attempt may even be executed later, behind the harness's back.
+func (r *seqRun) accounted() bool { return r.s.passed.Load()-r.base == r.exp }
+
 func (r *seqRun) viol(key, what string) {
+	if !r.accounted() {
+		r.inconclusive(fmt.Sprintf("script executions at the server do not add up (%d seen, %d accounted for: client-side I/O retry; %s); not judged: %s", r.s.passed.Load()-r.base, r.exp, r.s.lastArrivals(), key))
+		return
+	}
 	r.c.Viol(key, what, r.witness(what))
 	r.stop = true
 }
@@ -269,17 +313,6 @@ func (r *seqRun) matches(st sstate, h int, rem int64) bool {
 	return r.ids[h] == "" || r.ids[h] == st.val
 }
 
-// retried reports that a call which returned without error was not executed
-// exactly once at the server (a client-side re-execution needs a go-redis I/O
-// timeout, i.e. a starved machine; such a history is not judged).
-func (r *seqRun) retried(p0 int64) bool {
-	if d := r.s.passed.Load() - p0; d != 1 {
-		r.log = append(r.log, fmt.Sprintf("(the server executed %d script commands for this call)", d))
-		return true
-	}
-	return false
-}
-
 func (r *seqRun) errExpected(isAcquire bool, i int) bool {
 	switch r.s.mode.Load() {
 	case fErrReply, fLoading, fClosed, fInnerGet:
@@ -295,6 +328,7 @@ func (r *seqRun) errExpected(isAcquire bool, i int) bool {
 // onError handles an operation that returned an error: no grant, and the store
 // is either untouched or as if the script had run (both are within the statement).
 func (r *seqRun) onError(opname string, i int, ok bool, err error, cancelled bool, asIfHolder int, asIfRem int64) {
+	r.exp = r.s.passed.Load() - r.base // a failed call may have been executed or not
 	faulty := r.s.mode.Load() != fNone && r.s.mode.Load() != fNoScript
 	brk := errors.Is(err, breaker.ErrServiceUnavailable)
 	if ok {
@@ -336,7 +370,6 @@ func (r *seqRun) acquire(i int, cancelled bool) {
 		ctx = c
 		name = "AcquireCancelledCtx"
 	}
-	p0 := r.s.passed.Load()
 	ok, err := r.lk[i].AcquireCtx(ctx)
 	r.log = append(r.log, fmt.Sprintf("%s(%d)=%v%s", name, i, ok, errStr(err)))
 	want := r.holder < 0 || r.holder == i
@@ -350,8 +383,9 @@ func (r *seqRun) acquire(i int, cancelled bool) {
 		return
 	}
 	expErr := r.errExpected(true, i) || cancelled
-	if r.retried(p0) {
-		r.inconclusive("one successful Acquire was not exactly one script execution at the server (client-side I/O retry)")
+	r.exp++
+	if !r.accounted() {
+		r.inconclusive(fmt.Sprintf("a successful Acquire was not exactly one script execution at the server (%d seen, %d accounted for: client-side I/O retry; %s)", r.s.passed.Load()-r.base, r.exp, r.s.lastArrivals()))
 		return
 	}
 	if expErr && !ok && r.matches(r.store(), r.holder, r.rem) {
@@ -438,7 +472,6 @@ func (r *seqRun) release(i int, cancelled bool) {
 	case r.holder < 0 && r.lostByExpiry[i]:
 		class = "expired-holder-free-key"
 	}
-	p0 := r.s.passed.Load()
 	ok, err := r.lk[i].ReleaseCtx(ctx)
 	r.log = append(r.log, fmt.Sprintf("%s(%d)=%v%s", name, i, ok, errStr(err)))
 	want := r.holder == i
@@ -451,8 +484,9 @@ func (r *seqRun) release(i int, cancelled bool) {
 		return
 	}
 	expErr := r.errExpected(false, i) || cancelled
-	if r.retried(p0) {
-		r.inconclusive("one successful Release was not exactly one script execution at the server (client-side I/O retry)")
+	r.exp++
+	if !r.accounted() {
+		r.inconclusive(fmt.Sprintf("a successful Release was not exactly one script execution at the server (%d seen, %d accounted for: client-side I/O retry; %s)", r.s.passed.Load()-r.base, r.exp, r.s.lastArrivals()))
 		return
 	}
 	st := r.store()
@@ -470,17 +504,12 @@ func (r *seqRun) release(i int, cancelled bool) {
 			r.lateRelease = true
 			r.c.Obs("release_by_foreign_instance_while_held", 1)
 		}
-		bad := false
+		changed := !r.matches(st, r.holder, r.rem)
 		if ok {
-			r.c.Viol("C19/release/true-by-non-holder/"+class, fmt.Sprintf("Release by instance %d returned true although the model holder is %d", i, r.holder), r.witness(""))
-			bad = true
+			r.viol("C19/release/true-by-non-holder/"+class, fmt.Sprintf("Release by instance %d returned true although the model holder is %d", i, r.holder))
 		}
-		if !r.matches(st, r.holder, r.rem) {
-			r.c.Viol("C19/release/freed-by-non-holder/"+class, fmt.Sprintf("Release by instance %d (not the holder; holder %d with %d ms left) changed the store to %+v", i, r.holder, r.rem, st), r.witness(""))
-			bad = true
-		}
-		if bad {
-			r.stop = true
+		if changed {
+			r.viol("C19/release/freed-by-non-holder/"+class, fmt.Sprintf("Release by instance %d (not the holder; holder %d with %d ms left) changed the store to %+v", i, r.holder, r.rem, st))
 		}
 		return
 	}
@@ -983,6 +1012,8 @@ type conc struct {
 	recs  []crec
 	stop  bool
 	incon bool
+
+	base, exp int64 // script executions at the server, see seqRun
 }
 
 func newConc(c *kit.Case, s *srv, n int) *conc {
@@ -993,7 +1024,21 @@ func newConc(c *kit.Case, s *srv, n int) *conc {
 	}
 	vclock.Advance(11 * time.Second)
 	s.dirty = false
+	h.base = s.passed.Load()
 	return h
+}
+
+func (h *conc) accounted() bool { return h.s.passed.Load()-h.base == h.exp }
+
+// viol reports a violation unless the server executed script commands that no
+// recorded call accounts for (client-side I/O retry: not judged).
+func (h *conc) viol(key, what string) {
+	if !h.accounted() {
+		h.inconclusive(fmt.Sprintf("script executions at the server do not add up (%d seen, %d accounted for: client-side I/O retry); not judged: %s", h.s.passed.Load()-h.base, h.exp, key))
+		return
+	}
+	h.c.Viol(key, what, h.witness())
+	h.stop = true
 }
 
 func (h *conc) exec(in cin) (cout, string) {
@@ -1031,8 +1076,16 @@ func (h *conc) one(g int, in cin) cout {
 	out, et := h.exec(in)
 	ret := kit.Stamp()
 	h.recs = append(h.recs, crec{G: g, In: in, Out: out, Call: call, Ret: ret, ErrText: et})
-	if d := h.s.passed.Load() - p0; (in.K == kAcq || in.K == kRel) && !out.Err && d != 1 && !h.stop {
-		h.inconclusive(fmt.Sprintf("the server executed %d script commands for one %s that returned without error (client-side I/O retry)", d, in))
+	if in.K == kAcq || in.K == kRel {
+		d := h.s.passed.Load() - p0
+		if out.Err {
+			h.exp += d
+		} else {
+			h.exp++
+			if d != 1 && !h.stop {
+				h.inconclusive(fmt.Sprintf("the server executed %d script commands for one %s that returned without error (client-side I/O retry; %s)", d, in, h.s.lastArrivals()))
+			}
+		}
 	}
 	return out
 }
@@ -1050,14 +1103,12 @@ func (h *conc) learnIDs() bool {
 			if a.Err {
 				h.inconclusive("unexpected infrastructure error while learning ids")
 			} else {
-				h.c.Viol("C19/acquire/denied-on-free-key", fmt.Sprintf("warm-up Acquire by instance %d on a free key: ok=%v stored=%v", i, a.OK, err == nil), h.witness())
-				h.stop = true
+				h.viol("C19/acquire/denied-on-free-key", fmt.Sprintf("warm-up Acquire by instance %d on a free key: ok=%v stored=%v", i, a.OK, err == nil))
 			}
 			return false
 		}
 		if j, dup := h.ids[v]; dup {
-			h.c.Viol("C19/acquire/granted-while-held-by-other", fmt.Sprintf("instances %d and %d write the same id: each can take and release the other's lock", j, i), h.witness())
-			h.stop = true
+			h.viol("C19/acquire/granted-while-held-by-other", fmt.Sprintf("instances %d and %d write the same id: each can take and release the other's lock", j, i))
 			return false
 		}
 		h.ids[v] = i
@@ -1067,8 +1118,7 @@ func (h *conc) learnIDs() bool {
 			if r.Err {
 				h.inconclusive("unexpected infrastructure error while learning ids")
 			} else {
-				h.c.Viol("C19/release/false-by-holder", fmt.Sprintf("warm-up Release by the holder (instance %d) returned false", i), h.witness())
-				h.stop = true
+				h.viol("C19/release/false-by-holder", fmt.Sprintf("warm-up Release by the holder (instance %d) returned false", i))
 			}
 			return false
 		}
@@ -1142,6 +1192,7 @@ func (h *conc) round(actors []*actor) bool {
 		h.recs = append(h.recs, a.recs...)
 		a.recs = nil
 	}
+	h.exp += int64(okOps)
 	if execd != int64(okOps) {
 		h.inconclusive(fmt.Sprintf("the server executed %d script commands for %d calls that returned without error (client-side I/O retry)", execd, okOps))
 		return false
@@ -1173,8 +1224,7 @@ func (h *conc) decide(family string, withLease, errorsAllowed bool) {
 	for _, r := range h.recs {
 		if r.In.K != kAcq && r.In.K != kRel {
 			if r.In.K == kGet && r.Out.Holder == -2 {
-				c.Viol("C19/store/unknown-holder-value", "the key holds a value that is no instance's id", h.witness())
-				h.stop = true
+				h.viol("C19/store/unknown-holder-value", "the key holds a value that is no instance's id")
 			}
 			continue
 		}
@@ -1184,8 +1234,7 @@ func (h *conc) decide(family string, withLease, errorsAllowed bool) {
 				c.Obs("conc_ops_rejected_by_client_breaker", 1)
 			}
 			if r.Out.OK {
-				c.Viol("C19/error/success-reported-with-error", fmt.Sprintf("%s returned true together with an error", r.In), h.witness())
-				h.stop = true
+				h.viol("C19/error/success-reported-with-error", fmt.Sprintf("%s returned true together with an error", r.In))
 			}
 		} else if !r.Out.OK && r.In.K == kAcq {
 			denied++
@@ -1230,8 +1279,7 @@ func (h *conc) decide(family string, withLease, errorsAllowed bool) {
 	case kitp.Ok:
 		c.Obs("conc_linearizable", 1)
 	case kitp.Illegal:
-		c.Viol("C19/conc/not-linearizable/"+family, "no sequential order of the recorded concurrent history satisfies the lock model (holder|none, lease)", h.witness())
-		h.stop = true
+		h.viol("C19/conc/not-linearizable/"+family, "no sequential order of the recorded concurrent history satisfies the lock model (holder|none, lease)")
 	default:
 		h.inconclusive("porcupine timed out")
 	}
@@ -1388,13 +1436,11 @@ func concStampede(c *kit.Case) {
 		if winners >= 0 {
 			c.Obs("stampedes", 1)
 			if winners > 1 {
-				c.Viol("C19/stampede/several-winners", fmt.Sprintf("%d of %d simultaneous Acquire calls on a free key succeeded", winners, n), h.witness())
-				h.stop = true
+				h.viol("C19/stampede/several-winners", fmt.Sprintf("%d of %d simultaneous Acquire calls on a free key succeeded", winners, n))
 				break
 			}
 			if winners == 0 {
-				c.Viol("C19/stampede/no-winner", fmt.Sprintf("none of %d simultaneous Acquire calls on a free key succeeded", n), h.witness())
-				h.stop = true
+				h.viol("C19/stampede/no-winner", fmt.Sprintf("none of %d simultaneous Acquire calls on a free key succeeded", n))
 				break
 			}
 		}
@@ -1418,8 +1464,7 @@ func concStampede(c *kit.Case) {
 			}
 			c.Obs("release_stampedes", 1)
 			if trues > 1 {
-				c.Viol("C19/stampede/several-releases-true", fmt.Sprintf("%d simultaneous Release calls reported true", trues), h.witness())
-				h.stop = true
+				h.viol("C19/stampede/several-releases-true", fmt.Sprintf("%d simultaneous Release calls reported true", trues))
 				break
 			}
 			h.one(101, cin{K: kGet})
@@ -1503,8 +1548,7 @@ func concShared(c *kit.Case) {
 			}
 			c.Obs("lease_ttl_readings", 1)
 			if !ok {
-				c.Viol("C19/lease/wrong-ttl/shared-instance", fmt.Sprintf("holder %d has a lease of %d ms, not seconds*1000+500 for any seconds it was configured with", out.Holder, ttl), h.witness())
-				h.stop = true
+				h.viol("C19/lease/wrong-ttl/shared-instance", fmt.Sprintf("holder %d has a lease of %d ms, not seconds*1000+500 for any seconds it was configured with", out.Holder, ttl))
 			}
 		}
 	}
